@@ -48,7 +48,36 @@ fn digits(rng: &mut Rng) -> String {
 }
 
 pub fn w9_string(rng: &mut Rng) -> (String, &'static str) {
-    let class = rng.below(7);
+    let class = rng.below(9);
+    if class == 7 {
+        // CRLF / CR line endings, optional BOM, trailing blanks
+        let (b, gold, mv) = gen::w1(rng);
+        let t = b.to_text(gold, mv);
+        let nl = ["\r\n", "\r", "\n\r", " \n", "\t\n"][rng.below(5)];
+        let mut s = t.replace('\n', nl);
+        if rng.chance(1, 4) {
+            s.insert(0, '\u{feff}');
+        }
+        return (s, "line_endings");
+    }
+    if class == 8 {
+        // very long rows / very many cells / very long header
+        let (b, gold, mv) = gen::w1(rng);
+        let mut lines: Vec<String> = b.to_text(gold, mv).lines().map(|l| l.to_string()).collect();
+        let r = 2 + rng.below(8);
+        let n = [9usize, 16, 17, 64, 65, 300, 5000][rng.below(7)];
+        let mut row = format!("{}|", 10 - r);
+        for _ in 0..n {
+            row.push(' ');
+            row.push(CELLS[rng.below(CELLS.len())]);
+        }
+        row.push_str(" |");
+        lines[r] = row;
+        if rng.chance(1, 5) {
+            lines[0] = format!("{}{}", "7".repeat(1 + rng.below(400)), if gold { 'g' } else { 's' });
+        }
+        return (lines.join("\n"), "huge");
+    }
     if class == 6 {
         // random unicode
         let n = rng.below(300);
@@ -272,7 +301,7 @@ pub fn run_w9(n: u64, seed: u64, worker: usize, sink: &mut Sink) {
 /// 2/3/4-byte characters, Unicode digits, and characters whose code point equals a valid ASCII
 /// symbol modulo 256 (š ɡ ≡ a, ť ≡ e, ı ≡ 1, ĸ ≡ 8, Ů ≡ n, Ű ≡ p, Ų ≡ r, ٣ ≡ c, ｅ ≡ E) so that
 /// `char as u8` truncation bugs in any position are inside the exhaustive part.
-pub const ALPHABET: [&str; 42] = ["a", "h", "i", "`", "A", "H", "g", "0", "1", "8", "9", "n", "e", "s", "w", "N", "p", "P", "r", "R", "E", "m", "x", " ", "+", "-", "\u{0}", "é", "€", "😀", "š", "ɡ", "ｅ", "１", "٣", "ǈ", "ı", "ĸ", "Ů", "Ű", "Ų", "ť"];
+pub const ALPHABET: [&str; 45] = ["a", "h", "i", "`", "A", "H", "g", "0", "1", "8", "9", "n", "e", "s", "w", "N", "p", "P", "r", "R", "E", "m", "x", " ", "+", "-", "\u{0}", "é", "€", "😀", "š", "ɡ", "ｅ", "１", "٣", "ǈ", "ı", "ĸ", "Ů", "Ű", "Ų", "ť", "\n", "\t", "\r"];
 
 fn lower_piece_letters(s: &str) -> String {
     // piece letters may be upper case in the input
@@ -478,7 +507,13 @@ pub fn judge_value_spaces(sink: &mut Sink) {
             1 => u64::MAX,
             2 => 1,
             3 => 1 << 63,
-            _ => rng.next() & rng.next() & if k % 3 == 0 { rng.next() } else { u64::MAX },
+            _ => match k % 5 {
+                0 => rng.next() & rng.next() & rng.next(),
+                1 => rng.next() & rng.next(),
+                2 => rng.next(),
+                3 => rng.next() | rng.next(),
+                _ => rng.next() | rng.next() | (1 << 63) | 1,
+            },
         };
         sink.count("bitboards_judged");
         match guard("map_bit_board_to_squares", || map_bit_board_to_squares(b).iter().map(|s| s.index()).collect::<Vec<_>>()) {
@@ -553,6 +588,19 @@ pub fn run_w10(random_n: u64, seed: u64, worker: usize, workers: usize, sink: &m
                 _ => ch.insert(0, ALPHABET[rng.below(ALPHABET.len())].chars().next().unwrap()),
             }
             s = ch.into_iter().collect();
+        }
+        // valid text with a longer hostile tail or head (whitespace, newlines, repeats): must be rejected
+        if k % 4 == 1 {
+            let base = code_text(rng.below(263) as u16);
+            let tails = [" ", "\n", "\t", "\r\n", "  ", "n", "p", "\u{0}", "1", "a1n", " p", "\u{a0}", "\u{feff}"];
+            let mut t = String::new();
+            for _ in 0..1 + rng.below(5) {
+                t.push_str(tails[rng.below(tails.len())]);
+            }
+            s = if rng.chance(1, 2) { format!("{}{}", base, t) } else { format!("{}{}", t, base) };
+        }
+        if k % 4096 == 2 {
+            s = "a1n".repeat(1 + rng.below(400));
         }
         judge_notation(&s, sink);
         sink.count("random_strings");
